@@ -410,7 +410,24 @@ pub fn explore(spec: SeqSpec, workers: usize, deadline: Option<std::time::Instan
                     break;
                 }
                 let prefix = decode_task(&spec, p, t);
-                run_task(&spec, &shm, prefix);
+                // each task in its own process: an abort (double panic) must not take the
+                // worker and its remaining tasks with it
+                let tp = unsafe { libc::fork() };
+                if tp == 0 {
+                    run_task(&spec, &shm, prefix);
+                    unsafe { libc::_exit(0) };
+                }
+                let mut st: libc::c_int = 0;
+                unsafe { libc::waitpid(tp, &mut st, 0) };
+                if !(libc::WIFEXITED(st) && libc::WEXITSTATUS(st) == 0) {
+                    let what = if libc::WIFSIGNALED(st) {
+                        format!("process died with signal {} while replaying the prefix or closing", libc::WTERMSIG(st))
+                    } else {
+                        format!("process exited with status {}", libc::WEXITSTATUS(st))
+                    };
+                    // attribute to the shortest enabled prefix: replay validation pins it down
+                    record(&shm, &spec, &prefix, "crash.abort", &what);
+                }
                 shm.add(C_TASKS_DONE, 1);
             }
             unsafe { libc::_exit(0) };
